@@ -27,6 +27,8 @@ type c11Tbl struct {
 	Victim int       `json:"victim"` // table whose data file is cut
 	Cut    int       `json:"cut"`    // number of records kept in the victim's data file
 	Zeros  bool      `json:"zeros"`  // pad the cut file with zeros to its old length
+	Seek   bool      `json:"seek,omitempty"` // the inputs are random-access iterators (ScanStartingAt / ScanRange), not full scans
+	Mid    int       `json:"mid,omitempty"`  // cut this many bytes into record Cut instead of at its first byte
 	// observations
 	Err    string  `json:"err,omitempty"`
 	Writes []tblKV `json:"writes"`
@@ -68,7 +70,11 @@ func (c *c11Tbl) Exec() {
 			p := filepath.Join(d, sstables.DataFileName)
 			data, _ := os.ReadFile(p)
 			if c.Cut < len(offs) {
-				cut := append([]byte{}, data[:offs[c.Cut]]...)
+				at := int(offs[c.Cut]) + c.Mid
+				if at > len(data) {
+					at = len(data)
+				}
+				cut := append([]byte{}, data[:at]...)
 				if c.Zeros {
 					cut = append(cut, make([]byte, len(data)-len(cut))...)
 				}
@@ -89,7 +95,16 @@ func (c *c11Tbl) Exec() {
 	}()
 	var its []sstables.SSTableMergeIteratorContext
 	for i, r := range readers {
-		sc, err := r.Scan()
+		var sc sstables.SSTableIteratorI
+		var err error
+		switch {
+		case !c.Seek:
+			sc, err = r.Scan()
+		case i%2 == 0:
+			sc, err = r.ScanStartingAt([]byte{})
+		default:
+			sc, err = r.ScanRange([]byte{}, bytes.Repeat([]byte{0xff}, 40))
+		}
 		if err != nil {
 			c.Err = "Scan:" + classifyErr(err)
 			return
@@ -129,6 +144,15 @@ func (c *c11Tbl) Oracle() (bool, string) {
 		if len(c.Writes) != len(want) {
 			return false, fmt.Sprintf("merge reported success but wrote %d of %d records (input %d lost records behind a cut data file)", len(c.Writes), len(want), c.Victim)
 		}
+		uniq := true
+		for i := 1; i < len(want); i++ {
+			if bytes.Equal(want[i-1].K, want[i].K) {
+				uniq = false
+			}
+		}
+		if uniq && !tblEq(c.Writes, want) {
+			return false, fmt.Sprintf("merge reported success but its output misrepresents records of input %d (behind a cut data file)", c.Victim)
+		}
 		return true, ""
 	}
 	want = filterKV(u, func(kv tblKV) bool { return !kv.Nil })
@@ -143,6 +167,12 @@ func (c *c11Tbl) Kind() string {
 	z := ""
 	if c.Zeros {
 		z = "/zeros"
+	}
+	if c.Seek {
+		z += "/seek"
+	}
+	if c.Mid > 0 {
+		z += "/midrecord"
 	}
 	return "tables/" + c.Mode + z
 }
